@@ -4,8 +4,8 @@ from common import *
 import decl, gen, pktcases, pktprops
 
 PID = 'C20'
-TARGETS = ['Properties/C20.vo', 'Bridge/EqBridge.vo']
-KERNELS = ['G10_eq']
+TARGETS = ['Properties/C20.vo', 'Bridge/EqBridge.vo', 'Bridge/PlumbingBridge.vo']
+KERNELS = ['G10_eq', 'G17_builder']
 PROP_FILE = 'Properties/C20.v'
 
 
